@@ -378,6 +378,7 @@ func (c *Case) genWp(r *rand.Rand, tp *Pkg, must string, forceOverride bool) *Pk
 		case "plain": // plain struct
 			need := g.chooseTCs(allTC, 60)
 			d := g.add(g.structDecl(fmt.Sprintf("P%d", seq), fieldCount(r), need, false, chance(r, 50), nil, "plain"))
+			d.NestVis = visibilityMix(d) // usable as a nested plain struct by later productions
 			g.derive(need&d.caps(), d, g.recFlag(d))
 			c.Shapes = append(c.Shapes, "plain")
 		case "newtype": // named non-struct type
@@ -513,9 +514,14 @@ func (c *Case) genWp(r *rand.Rand, tp *Pkg, must string, forceOverride bool) *Pk
 			}
 		}
 	}
-	// Ord over a wide or nested product: every basic leaf gets a declared, call-counting OrdXxx
-	// (a local instance, found first by the documented order) so that the law test can bound the
-	// number of component comparisons with a logical clock instead of a timer.
+	c.instrumentOrd(p)
+	return p
+}
+
+// instrumentOrd: Ord over a wide or nested product: every basic leaf gets a declared, call-counting
+// OrdXxx (a local instance, found first by the documented order) so that the law test can bound the
+// number of component comparisons with a logical clock instead of a timer.
+func (c *Case) instrumentOrd(p *Pkg) {
 	instrument := false
 	for _, x := range p.Derives {
 		if x.TC == Ord && x.Decl.IsStruct && (len(x.Decl.Fields) >= 7 || hasNamedField(x.Decl)) {
@@ -532,7 +538,6 @@ func (c *Case) genWp(r *rand.Rand, tp *Pkg, must string, forceOverride bool) *Pk
 		}
 		c.Shapes = append(c.Shapes, "override.counting-Ord-leaves")
 	}
-	return p
 }
 
 // ensure closes the directive set: every instance a derivation needs is resolvable by the
@@ -625,7 +630,7 @@ func (c *Case) ensureType(r *rand.Rand, p *Pkg, tc TC, t *TX, rec bool) {
 			// derivation here: a directive in this package makes the outcome independent of it
 			onDemandInTypePkg := d.Pkg != p && d.Pkg.findDerive(tc, d) != nil
 			add(rec && d.derivable() && len(d.Params) == 0 && !(tc == Monoid && basicNewtype) && !onDemandInTypePkg)
-		case res.mode == mDefault && tc == Clone && hasMutableStorage(t, map[*Decl]bool{}):
+		case res.mode == mDefault && tc == Clone && !d.NoInstance && hasMutableStorage(t, map[*Decl]bool{}):
 			add(false)
 		}
 	case KParam:
